@@ -127,6 +127,34 @@ func (fe *FnEnc) call(ins ssa.Instruction, c *ssa.CallCommon, rt types.Type) Val
 	if cv.Clo != nil {
 		return fe.staticCall(cv.Clo.Fn.(*ssa.Function), cv.Clo.Bindings, args, rt, pos)
 	}
+	// a function-typed struct field declared to compute a spec function (fieldfn)
+	if un, ok := c.Value.(*ssa.UnOp); ok && un.Op == token.MUL && rt != nil {
+		if fa, ok := un.X.(*ssa.FieldAddr); ok {
+			if pt, ok := types.Unalias(fa.X.Type()).Underlying().(*types.Pointer); ok {
+				if nt, ok := types.Unalias(pt.Elem()).(*types.Named); ok && nt.Obj().Pkg() != nil {
+					if st, ok := nt.Underlying().(*types.Struct); ok {
+						key := nt.Obj().Pkg().Path() + "." + nt.Obj().Name() + "." + st.Field(fa.Field).Name()
+						if uf := fe.g.db.FieldFns[key]; uf != "" {
+							fe.s.note("calls of %s.%s are assumed to compute %s(struct, arguments) without effects", nt.Obj().Name(), st.Field(fa.Field).Name(), uf)
+							env := map[string]Val{"zzself": fe.val(fa.X)}
+							as := []Expr{&EName{Name: "zzself"}}
+							for i, a := range args {
+								n := fmt.Sprintf("zza%d", i)
+								env[n] = a
+								as = append(as, &EName{Name: n})
+							}
+							ev := fe.newEval(fe.mem, fe.mem, env)
+							ev.calleePkg = nt.Obj().Pkg().Path()
+							t := ev.evalTerm(&ECall{Fn: uf, Args: as})
+							rv := fe.wrapTerm(fe.s.name("ff", fe.s.sortOf(rt), t), rt)
+							fe.s.assumeRange(rt, rv.Term)
+							return rv
+						}
+					}
+				}
+			}
+		}
+	}
 	// function-typed parameter declared pure in the contract
 	if p, ok := c.Value.(*ssa.Parameter); ok && fe.top.ct != nil {
 		name := fe.paramName(p)
